@@ -142,13 +142,23 @@ def entryBytes (c : Cfg) (name : BitVec 32) (value size : BitVec 64) (info other
 
 /-! ### count, access by index -/
 
-/-- `get_symbols_num()` -/
-def symbolsNum (t : SymTab) : M (BitVec 64) :=
-  let minSz := match t.cfg.cls with | .c32 => sym_num_min32 | .c64 => sym_num_min64
+/-- `elf_file.get_class()` of an object of class `c` -/
+def classByte (c : Cls) : BitVec 8 := BitVec.ofNat 8 (match c with | .c32 => ELFCLASS32 | .c64 => ELFCLASS64)
+
+/-- `get_symbols_num()` after `minimum_symbol_size` was chosen -/
+def symbolsNumWith (t : SymTab) (minSz : BitVec 64) : M (BitVec 64) :=
   if sym_num_cond t.sym.entSize minSz t.sym.size t.sym.streamSize then
     if t.sym.entSize = 0 then throw (.divZero "get_symbols_num")
     else pure (sym_num_div t.sym.size t.sym.entSize)
   else pure 0
+
+/-- `get_symbols_num()` : `switch ( elf_file.get_class() )` selects the label group by the generated
+    comparisons (`sym_num_class`: 0 = `case ELFCLASS32`, 1 = `case ELFCLASS64`, else `default: return nRet`) -/
+def symbolsNum (t : SymTab) : M (BitVec 64) :=
+  match sym_num_class (classByte t.cfg.cls) with
+  | 0 => symbolsNumWith t sym_num_min32
+  | 1 => symbolsNumWith t sym_num_min64
+  | _ => pure 0
 
 /-- the `index < get_symbols_num()` operand (not evaluated when the data pointer is null) -/
 def guardNum (t : SymTab) (data : Option Bytes) : M (BitVec 64) :=
